@@ -664,7 +664,7 @@ def execute(plan, prop, out, tr):
                     nxt = srec[k + 1]["snap"]
                     Dn = float(rs_["D"].abs().max()) if rs_["D"] is not None else 0.0
                     blow = max(float(t_i.abs().max()) / (1 + float(s_i.abs().max())) for t_i, s_i in zip(tk["trial"], s_k) if t_i.numel())
-                    if blow > 1e6 or Dn > 30:
+                    if not (blow <= 1e6 and Dn <= 30):         # also: a trial that overflowed to inf / NaN
                         out.declined("C08.restore(overflowing trial)"); n_rej += 1; pattern.append("reject"); continue
                     slack = _retraction_slack(kinds, rs_["D"], s_k, eps)
                     def tol_fn(i, xa, xb, t_=tk["trial"], Dn=Dn, slack=slack):
